@@ -18,6 +18,7 @@ type StdChoice struct {
 	AllConsidered bool
 	Values  int
 	K       int
+	A       int // 0 = 3 known alternatives
 	Rich    bool // optional method parameters present (ELECTRE: a custom distillation function)
 }
 
@@ -55,6 +56,9 @@ func (c StdChoice) BuildOpt(px string, concrete bool) *model.DecisionMaker {
 	o.ConcreteParams = concrete || c.Method == "electreIII" || c.Method == "choquetIntegral" || c.Method == "owa"
 	if c.K > 0 {
 		o.K = c.K
+	}
+	if c.A > 0 {
+		o.A = c.A
 	}
 	if c.Method == "electreIII" && (c.Variant == "fatigue" || c.Variant == "criteriaConcealment") {
 		o.A = 2
